@@ -331,6 +331,9 @@ func fineExitWhileRequeueing(seed uint64) []lib.Case {
 	if !okh {
 		return []lib.Case{cr.finish("exit-vs-req-setup-failed#"+strconv.FormatUint(seed, 10), seed, nil, nil)}
 	}
+	// RDY 0 first: the re-queued message must not be handed to this (closing) connection
+	// again, which would count a delivery attempt the harness cannot observe
+	cr.opRdy(k1, 0)
 	reached, release := nsqd.VerifArmPark("req:after-pop", 1)
 	now := cr.now()
 	k1.c.write([]byte("REQ " + id + " 0\n"))
